@@ -27,6 +27,7 @@ mod c04m;
 mod typed;
 mod c07;
 mod streamraw;
+mod stypes;
 
 fn main() {
     let args: Vec<String> = std::env::args().collect();
@@ -86,6 +87,10 @@ fn main() {
         }
         _ => { eprintln!("unknown property {}", prop); std::process::exit(2); }
     }
+    // streams of typed item types (docs/STREAMTYPED-NOTES.md): one line per property
+    if prop == "C12" { stypes::run_c12(&mut sink, thorough, seed); }
+    if prop == "C09" { stypes::run_c09(&mut sink, thorough, seed); }
+    if prop == "C13" { stypes::run_c13(&mut sink, thorough, seed); }
     sink.finish(stats);
 }
 
@@ -116,6 +121,7 @@ fn replay(sink: &mut common::Sink, toks: &[&str]) {
         "tt" | "tt3" | "pfxs" | "rfaults" => typed::replay(sink, toks),
         "f64rt" | "f32rt" | "f64pr" | "f32pr" | "f32all" => c07::replay(sink, toks),
         "rawser" | "rawnest" | "stream3" | "sdepth" | "spfx" | "raw3" => streamraw::replay(sink, toks),
+        "tstream" | "tstream3" | "tsfault" => stypes::replay(sink, toks),
         _ => eprintln!("cannot replay op {}", toks[0]),
     }
 }
